@@ -238,3 +238,14 @@ def test_F23_sorting_a_frame_whose_pixels_hold_row_and_col():
     assert f.pixels["row"].tolist() == [1, 1, 2, 3] and f.pixels["col"].tolist() == [1, 5, 2, 0]
     d = f.to_dense("intensity")
     assert d[3, 0] == 30.0 and d[1, 5] == 15.0 and d[2, 2] == 22.0 and d[1, 1] == 11.0
+
+
+def test_F24_integer_pixel_positions_are_not_truncated():
+    from ImageD11 import transform as tr
+    pix = np.array([[100, 200, 1500], [300, 400, 77]])
+    kw = dict(y_center=1000.3, y_size=0.0475, tilt_y=0.01, z_center=1050.7, z_size=0.0523, tilt_z=-0.02, tilt_x=0.005, distance=151.2345)
+    a = tr.compute_xyz_lab(pix, **kw)
+    b = tr.compute_xyz_lab(pix.astype(float), **kw)
+    assert np.allclose(a, b, rtol=0, atol=1e-9)
+    assert np.abs(a[1:]).max() > 1.0          # not collapsed onto the beam axis
+    assert pix.dtype.kind == "i" and pix[0, 0] == 100
